@@ -11,6 +11,7 @@ CfThorough == {Cf(cp, mb, st) : cp \in {1, 2}, mb \in {0, 4, 6}, st \in {StA, St
 CfEnv      == {Cf(1, 0, StA), Cf(2, 4, StA)}
 CfEnvThorough == {Cf(cp, mb, StA) : cp \in {1, 2}, mb \in {0, 4, 6}}
 Cf3        == {Cf(1, 0, StA)}
+CfStale    == {Cf(2, 0, StA)}
 CfBeh      == {Cf(1, 0, StA), Cf(2, 4, StA)}
 CfSim      == {Cf(cp, mb, st) : cp \in {1, 2, 3}, mb \in {0, 4, 6, 9}, st \in {StA, StM, [A |-> "c2", B |-> "c1"]}}
 (* Simulation: TLC picks uniformly among SUCCESSOR STATES, so with Next a call kind with many argument choices (Get: keys x
@@ -31,6 +32,8 @@ SimNext == \E t \in Threads :
   \/ SimPut(t, "Upsert", SimKey(CvKeys))
   \/ Start(t, "Remove", SimKey(Keys), Nil, "ok")
   \/ Start(t, "Peek", SimKey(Keys), Nil, "ok")
+  \/ (pend # {} /\ Start(t, "Inval", RandomElement(pend), Nil, "ok"))
+  \/ LET d == RandomElement(Docs) IN StoreUpdate(d, RandomElement(Contents \ {store[d]}))
 SimSpec == Init /\ [][SimNext]_vars
 BehaviourExport ==
   (Len(hist) = MaxSteps /\ Quiescent) =>
